@@ -13,12 +13,22 @@ static void b_ghosts(void)
   verif_b_image_len = nondet_size_t(); verif_b_image_ok = nondet_bool(); verif_b_loaded.token = nondet_unsigned();
   verif_b_read_calls = 0; verif_b_write_calls = 0;
 }
-#if THIN <= 3
+#if THIN <= 3 || THIN == 6 || THIN == 7
 void h_thin_read_binary(void) { VERIF_ISTREAM in_fs = nondet_istream(); verif_thrown = 0; b_ghosts(); THIN_OWN_T r = thin_read_binary(&in_fs); (void)r; VERIF_REACH(); }
 void h_thin_write_binary(void)
 {
   VERIF_OSTREAM in_fs = nondet_ostream(); THIN_OWN_T in_o; in_o.m_backend.token = nondet_unsigned(); b_ghosts(); verif_l0 = in_fs.len;
   thin_write_binary(&in_fs, &in_o); VERIF_REACH();
+}
+#elif THIN == 8
+OUT_SCALAR_T nondet_OUT_SCALAR_T(void);
+void h_read_binary_outvec(void) { VERIF_ISTREAM in_fs = nondet_istream(); verif_thrown = 0; OUT_VEC_T r = read_binary_outvec(&in_fs); (void)r; VERIF_REACH(); }
+void h_const_read_binary(void) { VERIF_ISTREAM in_fs = nondet_istream(); verif_thrown = 0; CONST_OWN_T r = const_read_binary(&in_fs); (void)r; VERIF_REACH(); }
+void h_const_write_binary(void)
+{
+  VERIF_OSTREAM in_fs = nondet_ostream(); CONST_OWN_T in_o;
+  for (unsigned k = 0; k < DIMS_OUT; k++) in_o.m_value.m_data[k] = nondet_OUT_SCALAR_T();
+  verif_l0 = in_fs.len; const_write_binary(&in_fs, &in_o); VERIF_REACH();
 }
 #elif THIN == 4
 void h_ident_read_binary(void) { VERIF_ISTREAM in_fs = nondet_istream(); verif_thrown = 0; IDENT_OWN_T r = ident_read_binary(&in_fs); (void)r; VERIF_REACH(); }
